@@ -70,6 +70,13 @@ Fixpoint components_eqb (a b : list component) : bool :=
 (* impl PartialEq for Path / PathBuf: self.components() == other.components() *)
 Definition path_eq (p q : list N) : bool := components_eqb (path_components p) (path_components q).
 
+(* Path::join / PathBuf::push on Unix: an absolute argument replaces the path; otherwise a separator
+   is added unless the path is empty or already ends with one, then the argument is appended *)
+Definition path_join (p f : list N) : list N :=
+  if path_is_absolute f then f
+  else if negb (piece_is_empty p) && negb (ends_with_byte 47 p) then p ++ [47] ++ f
+  else p ++ f.
+
 (* ====================================================================================== *)
 (* ==== end of the std::path section                                                    ==== *)
 (* ====================================================================================== *)
